@@ -880,8 +880,10 @@ def stepWire (d : DState) (toks : List String) (impl : String) : DState × Verdi
       match d.mexpect with
       | e :: rest =>
         -- a message of an already accepted frame
+        -- judged only when the next element written is a valid wire message (what an invalid one decodes
+        -- to is the model's business, not the order clause's)
         let ooo := match implMsg with
-          | some m => outOfOrder sameMsgWire (e :: rest) m
+          | some m => validWire e && outOfOrder sameMsgWire (e :: rest) m
           | none => false
         let v := match implMsg with
           | some m => if ooo then some (pfx d ("batch_roundtrip: " ++ orderClause)) else same m e "next"
@@ -899,9 +901,9 @@ def stepWire (d : DState) (toks : List String) (impl : String) : DState × Verdi
             let calls := elems.filterMap isCallW
             let hasNotif := elems.any isNotifW
             if implOK then
-              let ooo := match implMsg with
-                | some m => outOfOrder sameMsgWire elems m
-                | none => false
+              let ooo := match implMsg, elems with
+                | some m, e :: _ => validWire e && outOfOrder sameMsgWire elems m
+                | _, _ => false
               let v := match implMsg, elems with
                 | some m, e :: _ => if ooo then some (pfx d ("batch_roundtrip: " ++ orderClause)) else same m e "first"
                 | _, _ => none
